@@ -403,6 +403,6 @@ func runPw2(c DecompCase, rec *h.Rec) error {
 	return nil
 }
 
-var propDecomp = h.NewProp("TestPropDecompose", h.Budget{Quick: 1500, Thorough: 40000}, genDecomp, runDecomp)
+var propDecomp = h.NewProp("TestPropDecompose", h.Budget{Quick: 1400, Thorough: 20000}, genDecomp, runDecomp)
 
 func TestPropDecompose(t *testing.T) { propDecomp.Check(t) }
